@@ -40,6 +40,18 @@ def stage(ctx, prop, binary="xp"):
         if n == 0:
             raise Infra("TLC simulation of XPathFuncs produced no complete behaviour")
         files.append(p)
+    # directed behaviours: every history of two machines over one function that fails for one operand class only
+    r = ctx.tlc("XPathFuncsScript", "XPathFuncs_Script.cfg", workers=4, timeout=1800, heap="4g")
+    p = ctx.path("fbeh_script.ndjson")
+    n = 0
+    with open(p, "w") as f:
+        for l in r["out"].splitlines():
+            if l.startswith('"FUNCJSON '):
+                f.write(json.loads(l)[len("FUNCJSON "):] + "\n")
+                n += 1
+    if n == 0:
+        raise Infra("XPathFuncsScript produced no behaviour")
+    files.append(p)
     out = ctx.path("fmism.ndjson")
     r = ctx.run_bin(binary, ["funcs", "-out", out] + files, timeout=1200)
     stats = json.loads(r.stdout.strip().splitlines()[-1])
